@@ -5,7 +5,7 @@ features(doc) -> set of feature tags; shrink(doc) -> iterator of strictly
 smaller documents (one edit each).  Everything is plain lists/strs/None, so a
 doc is JSON-able and can be stored in a replay case.
 
-Inline nodes   ["t", s] ["lit", s] ["b", I] ["i", I] ["link", target, I|None, trail]
+Inline nodes   ["t", s] ["lit", s] ["plit", s] ["b", I] ["i", I] ["link", target, I|None, trail]
                ["ext", url, I|None] ["url", url] ["tmpl", name, [[key|None, I], ...]]
                ["pf", name, [I, ...]] ["targ", name, I|None] ["html", tag, A, I]
                ["void", tag, A] ["magic", word] ["nowiki", s]
@@ -18,6 +18,7 @@ from __future__ import annotations
 
 import copy
 import random
+import re
 
 WORDS = ["foo", "bar", "baz qux", "x1", "é語", "Zed", "a-b", "n.1", "it's", "100%", "q r s", "A_B", "&amp;", "ünï", "7"]
 TNAMES = ["t", "u", "tmpl name", "T:x", "w/sub"]
@@ -32,6 +33,16 @@ LITS_NEUTRAL = ["[x]", "q ] r [ s", "[ [ p ] ]"]
 LITS_CLOSE = ["c ]] d", "]]", "y]]z", "]] ]"]
 LITS_OPEN = ["a [[ b", "[[", "x[[y", "[ [[", "] [["]
 MODE = {"lit": "close"}
+# protected literal brackets: written with <noinclude/> between the brackets of a pair, so the tree gets a text
+# node with ]] but no [[ (or the reverse, or both) in places where an unprotected pair would be markup -- link
+# labels and targets, external-link texts, bold/italic/HTML inside a label -- and in cells, items, headings,
+# captions.  Every value ends in a word character: a label whose last character is ] is a separate matter
+# (LINK(a, 'x]') is written '[[a|x]]]', which reads as LINK(a, 'x') + ']'; recorded in the build notes).
+MARKER = "<noinclude/>"
+# (external-link texts only get the opening kind: a single ] already ends such a link, so ']<noinclude/>]' there
+# leaves a text that starts with ] right behind the link's own ] -- the same string-edge matter)
+PLITS_OPEN = ["x [[ y", "[[y", "[[[z", "v[[ [[u"]
+PLITS = ["x]]y", "]]y", "c ]] d", "p]]]q", "x [[ y", "[[y", "[[[z", "m]][[n", "]] ]]w", "v[[ [[u"]
 MAGICS = ["__NOTOC__", "__TOC__", "__FORCETOC__", "__NOEDITSECTION__"]
 INLINE_TAGS = ["span", "b", "sup", "code", "small", "ref", "u", "s", "i", "sub", "big", "cite"]
 BLOCK_TAGS = ["div", "blockquote", "center"]
@@ -48,9 +59,29 @@ def attrs(rng, p=0.5, maxn=2):
     return out
 
 
-def inl(rng, d, lits=True, links=True, nb=False, ni=False):
+def protect(s):
+    """s with every pair of equal brackets kept apart by <noinclude/> (what a careful author -- or the
+    serialiser -- writes so that the brackets stay text): the parser drops the tag and yields the text s."""
+    return re.sub(r"\](?=\])", "]" + MARKER, re.sub(r"\[(?=\[)", "[" + MARKER, s))
+
+
+def label_plit(rng, nb, ni, values=None):
+    """A protected literal for a link label / external-link text, bare or inside bold / italic / HTML."""
+    p = ["plit", rng.choice(values or PLITS)]
+    w = rng.random()
+    if w < 0.2 and not nb:
+        return ["b", [p] + ([["t", rng.choice(WORDS)]] if rng.random() < 0.4 else [])]
+    if w < 0.4 and not ni:
+        return ["i", [p]]
+    if w < 0.55:
+        return ["html", rng.choice(INLINE_TAGS), [], [p]]
+    return p
+
+
+def inl(rng, d, lits=True, links=True, nb=False, ni=False, pl=True):
     """One inline node.  nb / ni: already inside bold / italic (quote runs are never nested in themselves:
-    '' inside '' has no defined reading)."""
+    '' inside '' has no defined reading).  pl: protected literal brackets allowed (not inside brace
+    arguments, where the parser keeps the protecting tag as text; "open": only the opening kind)."""
     r = rng.random()
     opening = MODE["lit"] == "open"
     if opening:
@@ -61,51 +92,68 @@ def inl(rng, d, lits=True, links=True, nb=False, ni=False):
     if r < 0.42:
         if nb:
             return ["t", rng.choice(WORDS)]
-        return ["b", inls(rng, d - 1, lits, links, 2, True, ni)]
+        return ["b", inls(rng, d - 1, lits, links, 2, True, ni, pl)]
     if r < 0.50:
         if ni:
             return ["t", rng.choice(WORDS)]
-        return ["i", inls(rng, d - 1, lits, links, 2, nb, True)]
+        return ["i", inls(rng, d - 1, lits, links, 2, nb, True, pl)]
     if r < 0.60:
         if not links:
             return ["t", rng.choice(WORDS)]
         txt = None
         if rng.random() < 0.5:
-            txt = inls(rng, min(d - 1, 1), False, False, 2, nb, ni)
-        return ["link", rng.choice(WORDS + ["Cat:x", "a#frag", ":en:w"]), txt, rng.choice(["", "", "s", "ing"])]
+            txt = inls(rng, min(d - 1, 1), False, False, 2, nb, ni, pl)
+        if pl and rng.random() < 0.3:
+            # text with ]] but no [[ (and the reverse) inside the label, where an unprotected pair would
+            # end / restart the link
+            txt = txt or []
+            txt.insert(rng.randrange(len(txt) + 1), label_plit(rng, nb, ni))
+        target = rng.choice(WORDS + ["Cat:x", "a#frag", ":en:w"])
+        if pl and rng.random() < 0.04:
+            target = rng.choice(["a]" + MARKER + "]b", "File:a.png|thumb"])
+        return ["link", target, txt, rng.choice(["", "", "s", "ing"])]
     if r < 0.66:
         if not links:
             return ["t", rng.choice(WORDS)]
-        return ["ext", rng.choice(URLS), inls(rng, min(d - 1, 1), False, False, 2, nb, ni) if rng.random() < 0.7 else None]
+        txt = inls(rng, min(d - 1, 1), False, False, 2, nb, ni, pl and "open") if rng.random() < 0.7 else None
+        if pl and txt is not None and rng.random() < 0.2:
+            txt.insert(rng.randrange(len(txt) + 1), label_plit(rng, nb, ni, PLITS_OPEN))
+        return ["ext", rng.choice(URLS), txt]
     if r < 0.69:
         return ["url", rng.choice(URLS[:2])]
     if r < 0.79:
         args = []
         for _ in range(rng.randint(0, 3)):
             key = rng.choice(["k", "n 1", "2", "x-y"]) if rng.random() < 0.45 else None
-            args.append([key, inls(rng, d - 1, alits, links, 2, nb, ni) if rng.random() < 0.9 else []])
+            args.append([key, inls(rng, d - 1, alits, links, 2, nb, ni, False) if rng.random() < 0.9 else []])
         return ["tmpl", rng.choice(TNAMES), args]
     if r < 0.85:
         name = rng.choice(PFNAMES)
         n = 0 if name == "PAGENAME" else rng.randint(1, 3)
-        return ["pf", name, [inls(rng, d - 1, alits, links, 2, nb, ni) for _ in range(n)]]
+        return ["pf", name, [inls(rng, d - 1, alits, links, 2, nb, ni, False) for _ in range(n)]]
     if r < 0.88:
-        return ["targ", rng.choice(["1", "x", "n 1"]), inls(rng, d - 1, alits, links, 1, nb, ni) if rng.random() < 0.5 else None]
+        return ["targ", rng.choice(["1", "x", "n 1"]),
+                inls(rng, d - 1, alits, links, 1, nb, ni, False) if rng.random() < 0.5 else None]
     if r < 0.94:
-        return ["html", rng.choice(INLINE_TAGS), attrs(rng), inls(rng, d - 1, lits, links, 2, nb, ni) if rng.random() < 0.9 else []]
+        return ["html", rng.choice(INLINE_TAGS), attrs(rng),
+                inls(rng, d - 1, lits, links, 2, nb, ni, pl) if rng.random() < 0.9 else []]
     if r < 0.955:
         return ["void", rng.choice(["br", "wbr"]), attrs(rng, 0.3, 1)]
-    if r < 0.968:
+    if r < 0.965:
         return ["nowiki", rng.choice(["[[x]]", "{{t}}", "a", "<b>"])]
-    if r < 0.975:
+    if r < 0.972:
         return ["magic", rng.choice(MAGICS)]
+    if r < 0.987:
+        if pl:
+            return ["plit", rng.choice(PLITS_OPEN if pl == "open" else PLITS)]
+        return ["t", rng.choice(WORDS)]
     if lits:
         return ["lit", rng.choice(LITS_NEUTRAL + (LITS_OPEN if opening else LITS_CLOSE) * 2)]
     return ["t", rng.choice(WORDS)]
 
 
-def inls(rng, d, lits=True, links=True, maxn=3, nb=False, ni=False):
-    return [inl(rng, d, lits, links, nb, ni) for _ in range(rng.randint(1, maxn))]
+def inls(rng, d, lits=True, links=True, maxn=3, nb=False, ni=False, pl=True):
+    return [inl(rng, d, lits, links, nb, ni, pl) for _ in range(rng.randint(1, maxn))]
 
 
 def block(rng, d, bd):
@@ -134,7 +182,7 @@ def block(rng, d, bd):
             cells = []
             for ci in range(rng.randint(1, 3)):
                 cells.append([rng.choice(["|", "|", "!"]), attrs(rng, 0.3), rng.choice([lead, lead, " ", ""]),
-                              inls(rng, min(d - 1, 2), False, True, 2) if rng.random() < 0.93 else [],
+                              inls(rng, min(d - 1, 2), MODE["lit"] == "close", True, 2) if rng.random() < 0.93 else [],
                               bool(ci > 0 and rng.random() < 0.35)])
             for ci in range(1, len(cells)):
                 # (parser matter, C03: a first ||-style cell containing '=' is read as row attributes)
@@ -206,6 +254,8 @@ def r_inl(n):
     k = n[0]
     if k in ("t", "lit"):
         return n[1]
+    if k == "plit":
+        return protect(n[1])
     if k == "b":
         return "'''" + r_inls(n[1]) + "'''"
     if k == "i":
@@ -301,12 +351,16 @@ def features(doc):
                 continue
             f.add({"b": "bold", "i": "italic", "lit": "literal-brackets", "ext": "extlink", "url": "bareurl",
                    "tmpl": "template", "pf": "parserfn", "targ": "tmplarg", "html": "html-inline", "void": "html-void",
-                   "magic": "magic-word", "nowiki": "nowiki", "link": "link"}[k])
+                   "magic": "magic-word", "nowiki": "nowiki", "link": "link", "plit": "protected-literal"}[k])
             if ctx:
                 f.add(k + "-in-" + ctx)
             if k in ("b", "i"):
                 fi(n[1], ctx)
             elif k == "link":
+                if MARKER in n[1]:
+                    f.add("protected-literal-in-link-target")
+                if "|" in n[1]:
+                    f.add("link-with-3-args")
                 if n[3]:
                     f.add("linktrail")
                 if n[2] is not None:
@@ -404,7 +458,7 @@ def _inl_variants(n):
     """Replacement lists (spliced in place of n), each strictly smaller."""
     k = n[0]
     out = []
-    if k in ("t", "lit", "nowiki"):
+    if k in ("t", "lit", "nowiki", "plit"):
         s = n[1]
         if k != "t":
             out.append([["t", "x"]])
